@@ -662,6 +662,21 @@ def call(I, name, args, e):
             # Option<&T>: payload and default are both references (the payload of a symbolic option is held by value)
             return opt_match(I, a0, lambda p: p if isinstance(p, RefV) else RefV(Cell(p)), lambda: args[1], e)
         return opt_match(I, a0, lambda p: p, lambda: args[1], e)
+    if n in ('core::option::Option::<T>::unwrap_or_else', 'core::result::Result::<T, E>::unwrap_or_else') and isinstance(a0, EnumV):
+        # `x.unwrap_or_else(|| panic!(..))` is `x.expect(..)`: a closure that diverges makes this a refusal
+        is_res = n.startswith('core::result')
+        okv = 'Ok' if is_res else 'Some'
+        def other():
+            return I.call_closure(args[1], [UNIT] if is_res else [], e)
+        if a0.variant == okv: return a0.fields['0']
+        c_ = getattr(a0, 'some_cond', None) or ('isvar', a0.sym, okv)
+        cl_ = args[1]
+        body_ = I.f.bodies.get(getattr(cl_, 'd', None), {}).get('body') if isinstance(cl_, ClosureV) else None
+        if a0.variant is None and body_ is not None and I._diverges(body_):
+            I.guards.append({'cond': c_, 'sp': e.get('sp'), 'kind': 'unwrap'})
+            I.log.append(('guard', c_, e.get('sp')))
+        if a0.variant is not None: return other()
+        return I.branch([(c_, lambda: I.enum_payload(a0, okv, '0')), (TRUE, other)])
     if n == 'core::option::Option::<T>::map_or':
         return opt_match(I, a0, lambda p: I.call_closure(args[2], [p], e), lambda: args[1], e)
     if n in ('core::option::Option::<T>::unwrap', 'core::option::Option::<T>::expect'):
